@@ -364,7 +364,7 @@ def job_force(cls, role):
         set_role(g, cls, role, Mate())
         st, r = H.call(g.compute_tangential_force)
         if role == "none":
-            O.prove("force:unmated=>ValueError", st == "raise" and isinstance(r, ValueError), props=("C09",))
+            O.prove("force:unmated=>raises-instead-of-returning-a-number", st == "raise", props=("C09",))
             return
         if st == "raise":
             O.fail("force:no-exception-when-mated", props=("C09",), note=repr(r))
@@ -403,7 +403,7 @@ def job_bending(cls, role):
         set_role(g, cls, role, mate)
         st, r = H.call(g.compute_bending_stress)
         if cls == "WormWheel" and role == "none":
-            O.prove("bending:unmated-worm-wheel=>ValueError", st == "raise" and isinstance(r, ValueError), props=("C09",))
+            O.prove("bending:unmated-worm-wheel=>raises-instead-of-returning-a-number", st == "raise", props=("C09",))
             return
         if st == "raise":
             O.fail("bending:no-exception", props=("C09",), note=repr(r))
